@@ -65,7 +65,7 @@ static _Bool p_var_is_current(const struct cat_command *c, const struct cat_vari
 static _Bool p_nul_from(const char *b, size_t from, size_t cap)
 {
         size_t i;
-        for (i = 0; i < H_BUFSZ; i++)
+        for (i = 0; i < H_MAXBUF; i++)
                 if (i >= from && i < cap && b[i] == 0)
                         return 1;
         return 0;
@@ -75,7 +75,7 @@ static _Bool p_nul_from(const char *b, size_t from, size_t cap)
 static _Bool p_no_nul_before(const char *b, size_t n, size_t cap)
 {
         size_t i;
-        for (i = 0; i < H_BUFSZ; i++)
+        for (i = 0; i < H_MAXBUF; i++)
                 if (i < n && i < cap && b[i] == 0)
                         return 0;
         return 1;
